@@ -14,7 +14,7 @@ import itertools
 import json
 
 from mon import refbufr as R
-from mon import handover
+from mon import handover, midscan
 from mon import nested
 from mon.compare import diff_message, opsig, jsonable, td_of
 from mon.gen import cases
@@ -245,6 +245,37 @@ def features(msg):
     return f
 
 
+def judge_links(kind, m, msg, opts):
+    """C07's oracle for a message delivered / read in the middle of other work: R's link map, and (wired messages) the owners shown
+    in the hierarchical view"""
+    if kind != 'full':
+        return None
+    d = diff_message(m, msg.subsets, check_links=True)
+    if d:
+        return 'decoded %s differ from the FM-94 bitmap rule at subset %s field %s: observed %r expected %r' % (d[1], d[0], d[2], jsonable(d[3]), jsonable(d[4]))
+    if opts.get('wire_template_data', True):
+        try:
+            from pybufrkit.renderer import NestedJsonRenderer
+            nj = NestedJsonRenderer().render(m)
+            nodes_all = json.loads(json.dumps(nj[-2][-1]['value'], default=lambda b: b.decode('latin-1')))
+        except Exception as e:
+            return 'nested rendering raised %s' % type(e).__name__
+        td = m.template_data.value
+        for k, nodes in enumerate(nodes_all):
+            if k >= len(msg.subsets):
+                break
+            s = msg.subsets[k]
+            if any(l[0] == 'A' for l in s.labels) and s.links:
+                continue        # quality values that carry associated fields: placement not judged (DESIGN 9.2)
+            try:
+                bad = check_nested(nodes, list(s.labels), [norm(v) for v in td.decoded_values_all_subsets[k]], dict(s.links))
+            except Exception:
+                continue
+            if bad and bad[0].startswith('nested/attribute-owner'):
+                return 'attributes under other owners in the nested view of subset %d: %s' % (k, bad[1][:200])
+    return None
+
+
 def compare_case(ctx, dec, msg, origin, name=None, extra=None, enc=None):
     if not cases.self_consistent(msg):
         ctx.count('r_self_fail')
@@ -281,6 +312,16 @@ def compare_case(ctx, dec, msg, origin, name=None, extra=None, enc=None):
         ctx.add('operators', op)
     ctx.add('link_counts', min(9, len(msg.subsets[0].links)))
     d = diff_message(m, msg.subsets, check_links=True)
+    if not d and nlinks and len(msg.bytes) < 3000:
+        # the links of a message are its own also when it is delivered / read while other scans and decodes use the same decoder
+        recent = ctx.__dict__.setdefault('_c07_recent', [])
+        recent.append((msg.bytes, msg))
+        if len(recent) >= 6:
+            ctx.count('mid_scan_blocks')
+            if ctx.counters['mid_scan_blocks'] % (6 if ctx.quick else 3) == 1:
+                from pybufrkit.decoder import Decoder
+                midscan.scenarios(ctx, 'links', Decoder, recent[:3], recent[3:6], judge_links, dict(origin='mid-scan'))
+            del recent[:]
     if d:
         k, why, j, obs, exp = d
         ctx.violate('links/%s/%s/%s/ops[%s]' % (why, mode, fsig, opsig(msg.ids)),
